@@ -237,6 +237,23 @@ def x1_exempt(prog, flows, b, fl, wbb, callee, err_bb):
 # ---------------------------------------------------------------------------------------- R-C01-2
 
 
+def in_input_order(ity):
+    """the iterator type walks a Vec front to back, every element once: vec::IntoIter / slice::Iter, possibly under
+    lazy one-to-one adaptors (Map, Enumerate, Cloned, Copied, Inspect) -- not Rev, Skip, StepBy, Filter, Chain, .."""
+    t = ity
+    for pre in ("&mut ", "&"):
+        if t.startswith(pre):
+            t = t[len(pre):]
+    for _ in range(6):
+        for ad in ("std::iter::Map<", "std::iter::Enumerate<", "std::iter::Cloned<", "std::iter::Copied<", "std::iter::Inspect<"):
+            if t.startswith(ad):
+                t = t[len(ad):]
+                break
+        else:
+            break
+    return t.startswith("std::vec::IntoIter<") or t.startswith("std::slice::Iter<")
+
+
 def rule2(ctx, prog, flows, effects):
     ctx.rule("R-C01-2", "batch wrappers: writes only through atomic mutators, in Vec order, the first Err returns at once; constructor adds nodes first and is Ok only on add_edges' Ok edge")
     atomic_paths = {prog.one(a).path for a in ATOMIC}
@@ -256,7 +273,7 @@ def rule2(ctx, prog, flows, effects):
         for t in b.calls():
             if t.callee and t.callee.short == "std::iter::Iterator::next":
                 ity = t.args[0].place.ty if t.args and t.args[0].place is not None else ""
-                ok = ity.startswith("&mut std::vec::IntoIter<")
+                ok = in_input_order(ity)
                 ctx.require(ok, "R-C01-2", "order|" + b.short, "%s iterates its input as vec::IntoIter (input order)" % sfx.split("::")[-1], "%s iterates %s: not the plain input order" % (sfx, ity), loc_str(t.span))
         # (c) every Result-returning mutator call: Err leaves at once
         for t in mcalls:
